@@ -8,7 +8,8 @@
   * C15: generate and compare never change the tree; with --check neither do format and renumber-tests
     (`C15_run_inspects`).
   * C13 (and C12, C14): the output format is no write mode — what a command leaves in the tree does not depend on `-o`
-    (`run_tree_output_free`); for every command but compare not even the exit status does (`run_output_free`).
+    (`run_tree_output_free`); for every command but compare not even the exit status does (`run_output_free`);
+    generate, update and update-copyright print the same, too (`run_output_free_full`).
 -/
 import Crs.Cli
 import CrsProps.C15
@@ -63,8 +64,8 @@ theorem setFile_same (p b : Bytes) (t : Tree) (h : lookup p t = some b) : setFil
       rw [ih h]
 
 /-- a single-file `format --check` leaves the tree as it is -/
-theorem formatCmd_check_tree (lint : Bytes → Bool) (t : Tree) (arg : Bytes) (r : RunResult)
-    (h : formatCmd true lint t arg = some r) : r.tree = t := by
+theorem formatCmd_check_tree (github : Bool) (lint : Bytes → Bool) (t : Tree) (arg : Bytes) (r : RunResult)
+    (h : formatCmd true github lint t arg = some r) : r.tree = t := by
   unfold formatCmd at h
   split at h
   · simp at h
@@ -139,7 +140,7 @@ theorem C15_run_inspects (E : Asm.Engine) (cfg : Asm.Config) (o1 o2 : Parser.Ord
         · split at hg
           · split at hg
             · simp only [Option.some.injEq] at hg; subst hg; rfl
-            · exact formatCmd_check_tree lint t _ r hg
+            · exact formatCmd_check_tree _ lint t _ r hg
           · simp only [Option.some.injEq] at hg; subst hg; rfl
     · simp only [hc, hk] at hg
       split at hg
@@ -159,17 +160,81 @@ theorem C15_run_inspects (E : Asm.Engine) (cfg : Asm.Config) (o1 o2 : Parser.Ord
     · simp only [Option.some.injEq] at h; subst h; rfl
   · exact key _ h
 
-/-- the body of a command does not look at the output format, unless the command is compare -/
+/-- exit status and tree of a result -/
+def core (r : RunResult) : Bool × Tree := (r.ok, r.tree)
+
+/-- status and tree of a single-file format do not depend on the output format -/
+theorem formatCmd_core (check g g' : Bool) (lint : Bytes → Bool) (t : Tree) (arg : Bytes) :
+    (formatCmd check g lint t arg).map core = (formatCmd check g' lint t arg).map core := by
+  unfold formatCmd
+  split
+  · rfl
+  · simp only [Option.map_some, formatAt]
+    split
+    · rfl
+    · split <;> rfl
+
+/-- the body of a command decides status and tree without looking at the output format, unless the command is compare
+    (format and renumber-tests *print* differently in GitHub mode) -/
 theorem go_output_free (E : Asm.Engine) (cfg : Asm.Config) (o1 o2 : Parser.Ord) (lint : Bytes → Bool) (vOk : Bool)
     (inv : Invocation) (t : Tree) (hc : inv.cmd ≠ .compare) (g g' : Bool) :
+    (run.go E cfg o1 o2 lint vOk inv t g).map core = (run.go E cfg o1 o2 lint vOk inv t g').map core := by
+  unfold run.go
+  cases hcmd : inv.cmd
+  case compare => exact absurd hcmd hc
+  case format =>
+    simp only []
+    split
+    · rfl
+    · split
+      · rfl
+      · split
+        · split
+          · rfl
+          · exact formatCmd_core _ g g' lint t _
+        · rfl
+  case renumber =>
+    simp only []
+    split
+    · rfl
+    · split
+      · rfl
+      · rfl
+  all_goals rfl
+
+/-- generate, update and update-copyright do not look at the output format at all: status, tree and standard output -/
+theorem go_output_free_full (E : Asm.Engine) (cfg : Asm.Config) (o1 o2 : Parser.Ord) (lint : Bytes → Bool) (vOk : Bool)
+    (inv : Invocation) (t : Tree) (hc : inv.cmd = .generate ∨ inv.cmd = .update ∨ inv.cmd = .copyright) (g g' : Bool) :
     run.go E cfg o1 o2 lint vOk inv t g = run.go E cfg o1 o2 lint vOk inv t g' := by
   unfold run.go
-  cases hcmd : inv.cmd <;> first | rfl | exact absurd hcmd hc
+  rcases hc with hc | hc | hc <;> simp only [hc]
 
-/-- **the output format is no write mode and no verdict switch** (C13, C12, C14): for every command but compare, the
-    result — exit status, tree, stdout — is the same under `-o github`, `-o text` and without the option -/
+/-- **the output format is no write mode and no verdict switch** (C13, C12, C14): for every command but compare, exit
+    status and tree are the same under `-o github`, `-o text` and without the option -/
 theorem run_output_free (E : Asm.Engine) (cfg : Asm.Config) (o1 o2 : Parser.Ord) (lint : Bytes → Bool) (vOk : Bool)
     (inv : Invocation) (t : Tree) (hc : inv.cmd ≠ .compare) (o o' : Option Bytes) (ho : OutputOk o) (ho' : OutputOk o') :
+    (run E cfg o1 o2 lint vOk { inv with output := o } t).map core = (run E cfg o1 o2 lint vOk { inv with output := o' } t).map core := by
+  have hgo : ∀ (x : Option Bytes) (g : Bool), run.go E cfg o1 o2 lint vOk { inv with output := x } t g = run.go E cfg o1 o2 lint vOk inv t g := by
+    intro x g; unfold run.go; rfl
+  have e : ∀ x, OutputOk x → (run E cfg o1 o2 lint vOk { inv with output := x } t).map core = (run.go E cfg o1 o2 lint vOk inv t false).map core := by
+    intro x hx
+    unfold run
+    rcases hx with rfl | rfl | rfl
+    · simp only; rw [hgo]
+    · simp only
+      have : (b!"text" == b!"text" || b!"text" == b!"github") = true := by decide
+      simp only [this, if_true]
+      rw [hgo]; exact go_output_free E cfg o1 o2 lint vOk inv t hc _ _
+    · simp only
+      have : (b!"github" == b!"text" || b!"github" == b!"github") = true := by decide
+      simp only [this, if_true]
+      rw [hgo]; exact go_output_free E cfg o1 o2 lint vOk inv t hc _ _
+  rw [e o ho, e o' ho']
+
+/-- … and generate, update and update-copyright print the same, too -/
+theorem run_output_free_full (E : Asm.Engine) (cfg : Asm.Config) (o1 o2 : Parser.Ord) (lint : Bytes → Bool) (vOk : Bool)
+    (inv : Invocation) (t : Tree) (hc : inv.cmd = .generate ∨ inv.cmd = .update ∨ inv.cmd = .copyright)
+    (o o' : Option Bytes) (ho : OutputOk o) (ho' : OutputOk o') :
     run E cfg o1 o2 lint vOk { inv with output := o } t = run E cfg o1 o2 lint vOk { inv with output := o' } t := by
   have hgo : ∀ (x : Option Bytes) (g : Bool), run.go E cfg o1 o2 lint vOk { inv with output := x } t g = run.go E cfg o1 o2 lint vOk inv t g := by
     intro x g; unfold run.go; rfl
@@ -181,11 +246,11 @@ theorem run_output_free (E : Asm.Engine) (cfg : Asm.Config) (o1 o2 : Parser.Ord)
     · simp only
       have : (b!"text" == b!"text" || b!"text" == b!"github") = true := by decide
       simp only [this, if_true]
-      rw [hgo]; exact go_output_free E cfg o1 o2 lint vOk inv t hc _ _
+      rw [hgo]; exact go_output_free_full E cfg o1 o2 lint vOk inv t hc _ _
     · simp only
       have : (b!"github" == b!"text" || b!"github" == b!"github") = true := by decide
       simp only [this, if_true]
-      rw [hgo]; exact go_output_free E cfg o1 o2 lint vOk inv t hc _ _
+      rw [hgo]; exact go_output_free_full E cfg o1 o2 lint vOk inv t hc _ _
   rw [e o ho, e o' ho']
 
 /-- … and for compare the tree is out of the question anyway: whatever the output format, what a command leaves in the
@@ -205,7 +270,10 @@ theorem run_tree_output_free (E : Asm.Engine) (cfg : Asm.Config) (o1 o2 : Parser
       simp only [Option.map_some]
       exact congrArg some (C15_run_inspects E cfg o1 o2 lint vOk { inv with output := x } t r (.inr (.inl hc)) hr)
     rw [sh o ho, sh o' ho']
-  · rw [run_output_free E cfg o1 o2 lint vOk inv t hc o o' ho ho']
+  · have h := run_output_free E cfg o1 o2 lint vOk inv t hc o o' ho ho'
+    have hm : ∀ x : Option RunResult, x.map (·.tree) = (x.map core).map Prod.snd := by
+      intro x; cases x <;> rfl
+    rw [hm, hm, h]
 
 /-- non-vacuity: `-o GitHub` is refused; `update` with both a rule and --all is refused -/
 example : OutputOk (some b!"github") ∧ b!"GitHub" ≠ b!"text" ∧ b!"GitHub" ≠ b!"github" ∧
